@@ -23,7 +23,7 @@ theorem Codec.pair_lawful' {α β : Type} {c1 : Codec α} {c2 : Codec β} (h1 : 
 /-- structural proof search over codec terms -/
 macro "lawful_step" : tactic => `(tactic| first
   | assumption
-  | exact Prim.int_lawful | exact Prim.str_lawful | exact Prim.decRepr_lawful | exact Prim.dec_lawful _
+  | exact Prim.int_lawful | exact Prim.str_lawful | exact Prim.decRepr_lawful | exact Prim.dec_lawful _ | exact Prim.decPlain_lawful _
   | exact Prim.boolStrict_lawful | exact Prim.boolDefault_lawful _ | exact Prim.drivingDir_lawful
   | exact Prim.enum_lawful _ | exact Prim.enumDefault_lawful _ _
   | apply ECodec.ofText_lawful | apply ECodec.attr1_lawful | apply ECodec.ofKids_lawful | apply ECodec.attrKids_lawful
@@ -40,11 +40,11 @@ theorem refE_lawful : refE.Lawful := by unfold refE; lawful
 theorem centerC_lawful (P : Params) (dyn : Bool) : (centerC P dyn).Lawful := by
   unfold centerC; apply Codec.optChild_lawful; exact ptE_lawful P
 
-theorem orientC_lawful (dyn : Bool) : (orientC dyn).Lawful := by unfold orientC; lawful
+theorem orientC_lawful (P : Params) (dyn : Bool) : (orientC P dyn).Lawful := by unfold orientC; lawful
 
 theorem rectE_lawful (P : Params) (dyn : Bool) : (rectE P dyn).Lawful := by
   have h1 := centerC_lawful P dyn
-  have h2 := orientC_lawful dyn
+  have h2 := orientC_lawful P dyn
   unfold rectE; lawful
 
 theorem circE_lawful (P : Params) (dyn : Bool) : (circE P dyn).Lawful := by
